@@ -37,6 +37,8 @@ type fn struct {
 	isLit       bool
 	// the value of the function when a panic is recovered by its deferred handler ("" = no handler)
 	recoverTerm string
+	// parts of the source deliberately left out of the translation (named in the generated file)
+	skipped []string
 }
 
 // panicValue: what a panic (of the yaml decoder, or propagated from a callee) evaluates to here
